@@ -27,7 +27,16 @@ segment_propagator_eq_ratio cumulative_propagator_derivative cumulative_propagat
 exists_isEigh eigh_family_exists liouville_derivative_entry liouville_derivative_get
 liouville_derivative_contraction liouville_derivative_assembly liouville_derivative_of_pulse'''.split()
 LEAN_MODULES = ['FFVerif.Props.C11', 'FFVerif.Props.C11Deriv', 'FFVerif.Props.C07', 'FFVerif.Props.C11Asm',
-                'FFVerif.Props.C11AsmDeriv']
+                'FFVerif.Props.C11AsmDeriv', 'FFVerif.Props.C11Infid']
+# module C11Infid (model GradientInfid = infidelity_derivative end to end, after the repair of F49): the output is the
+# derivative of the infidelity the package reports (identity component discarded), selections are slices
+THEOREMS = THEOREMS + [
+    'FFVerif.C11.infidelityDeriv_hasDerivAt', 'FFVerif.C11.infidelityDeriv_uncorrected_hasDerivAt_sens',
+    'FFVerif.C11.infidelityDeriv_hasDerivAt_sens', 'FFVerif.C11.infidelityDeriv_selection',
+    'FFVerif.C11.identity_component_independent_of_control', 'FFVerif.C11.fidelityIntegral_vs_numeric_infidelity',
+    'FFVerif.C11.infidelityDeriv_is_numeric_infidelity_deriv', 'FFVerif.C11.infidelityDeriv_uncorrected_gap',
+    'FFVerif.C11.identityGap_vanishes', 'FFVerif.C11.identityGap_is_subtracted',
+    'FFVerif.C11.infidelityDeriv_is_numeric_infidelity_deriv_sens']
 # modules C11Asm / C11AsmDeriv: the array assembly of the control-matrix derivative (model GradientAsm) equals
 # the docstring's product-rule formula and IS the derivative (HasDerivAt) of the control-matrix model w.r.t.
 # each control amplitude on each segment, with and without control-dependent sensitivities
@@ -41,7 +50,7 @@ THEOREMS = THEOREMS + [
     'FFVerif.CmDerivAux.segment_integral_hasDerivAt', 'FFVerif.CmDerivAux.Eprop_hasDerivAt']
 PINS = ['pinGetFFDerivative', 'pinGradControlMatrix', 'pinInfidelityDerivative', 'C11_gradient_source_shape', 'C11_gradient_einsum_shape']
 GEN_SITES = ['cache:cleanup', 'cache:method_bodies', 'const:gradient.masks', 'einsum:gradient_calculate_filter_function_derivative_0',
-             'einsum:gradient_infidelity_derivative_0', 'einsum:gradient__liouville_derivative_0']
+             'einsum:gradient_infidelity_derivative_0', 'einsum:gradient_infidelity_derivative_1', 'einsum:gradient__liouville_derivative_0']
 COMPONENTS = ['derivative_integral', 'liouville_A', 'ff_derivative', 'infidelity_derivative']   # + corr_c11asm
 RULES = ['correspondence: _derivative_integral, A_mat, calculate_filter_function_derivative and the '
          'spectrum integration of infidelity_derivative vs the Lean model at doubles (random, '
@@ -62,6 +71,9 @@ TRUSTED = ['modelled not verified: reuse of cached intermediates inside '
 def correspondence(ctx):
     # the whole assembly calculate_derivative_of_control_matrix_from_scratch vs the model GradientAsm
     corr_script(ctx, 'corr_c11asm', ['cmderiv'])
+    # infidelity_derivative / get_filter_function_derivative end to end (selections, both spectrum shapes,
+    # n_coeffs_deriv with noise operators that have a trace) vs the model GradientInfid
+    corr_script(ctx, 'corr_c11infid', [])
     rng = ctx.rng('corr')
     reqs, exps = [], []
 
@@ -192,7 +204,10 @@ def check_gradient(ctx, case):
         F = q.get_filter_function(omega)
         ii = util.get_indices_from_identifiers(q.n_oper_identifiers, nid)
         return np.concatenate((F[ii, ii].real.ravel(), ff.infidelity(q, S, omega, nid).ravel()))
-    num = fd(FF, c0[rows])                      # (len(cid)*n_dt, n_nid*n_omega + n_nid)
+    # (step of the finite differences relative to the longest segment: the function varies on the
+    # scale 1/dt in the amplitudes)
+    hstep = 1e-4/max(1.0, float(np.max(desc['dt'])))
+    num = fd(FF, c0[rows], hstep)               # (len(cid)*n_dt, n_nid*n_omega + n_nid)
     num = num.reshape(len(cid), n_dt, -1)
     nF = len(nid)*len(omega)
     numF = num[:, :, :nF].reshape(len(cid), n_dt, len(nid), len(omega)).transpose(2, 1, 0, 3)
@@ -270,11 +285,35 @@ def check_sens_deriv(ctx, case):
         F = q.get_filter_function(omega)
         i = np.arange(n_n)
         return F[i, i].real.ravel()
-    num = fd(FF, c0[cs]).reshape(n_c, n_dt, n_n, len(omega)).transpose(2, 1, 0, 3)
+    num = fd(FF, c0[cs], 1e-4/max(1.0, float(np.max(desc['dt'])))).reshape(
+        n_c, n_dt, n_n, len(omega)).transpose(2, 1, 0, 3)
     e = gens.abs_err(dF, num, max(np.max(np.abs(FF(c0[cs]))), 1e-12))
     if not e <= 1e-5:
         ctx.fail('gradient_vs_fd', case, {'err': e}, {'tol': 1e-5}, feats,
                  f'derivative with n_coeffs_deriv differs from finite differences by {e:.3g}')
+    # the infidelity derivative with control-dependent sensitivities vs finite differences of the
+    # package's own infidelity (noise operators with a trace included: the identity component is
+    # discarded by infidelity() and depends on the control through the sensitivities)
+    S = 1/(1 + omega**2)
+    with np.errstate(all='ignore'):
+        dI = gradient.infidelity_derivative(gens.build(dd0), S, omega, n_coeffs_deriv=nderiv)
+
+    def INF(csub):
+        dd = dict(desc)
+        cc = c0.copy()
+        cc[cs] = csub
+        nn = n0.copy()
+        nn[ns] = n0[ns] + np.einsum('ah,ht->at', kmat, csub - c0[cs])
+        dd['c_coeffs'], dd['n_coeffs'] = cc, nn
+        return ff.infidelity(gens.build(dd), S, omega).ravel()
+    numI = fd(INF, c0[cs], 1e-4/max(1.0, float(np.max(desc['dt'])))).reshape(
+        n_c, n_dt, n_n).transpose(2, 1, 0)
+    if np.all(np.isfinite(dI)):
+        e = gens.abs_err(dI, numI, max(float(np.max(np.abs(INF(c0[cs])))), 1e-12))
+        if not e <= 1e-5:
+            ctx.fail('gradient_vs_fd', case, {'err': e}, {'tol': 1e-5}, feats,
+                     f'infidelity derivative with n_coeffs_deriv differs from finite differences of '
+                     f'the infidelity by {e:.3g} (features={desc["features"]})')
 
 
 def check_history_resonant(ctx, case):
